@@ -195,6 +195,8 @@ func concStream(seed uint64, tier string, outDir string, props map[string]bool, 
 			switch x := v.(type) {
 			case float64:
 				jfl = append(jfl, fmt.Sprintf("((false, %d), %s)", math.Float64bits(x), gOptMarshal(x)))
+			case float32:
+				jfl = append(jfl, fmt.Sprintf("((true, %d), %s)", math.Float32bits(x), gOptMarshal(x)))
 			}
 		}
 		cases = append(cases, fmt.Sprintf("mktc (mktt %s [] [] %s)\n  %s\n  %s\n  [%s]", tr.gallina(), gList(jfl),
